@@ -95,6 +95,15 @@ Theorem C16_encoder_frames_scanned : forall o L rate bps number chans bytes rest
             h_rate h = rate /\ h_bps h = bps /\ h_number h = number /\ h_bs h = block_len chans.
 Proof. exact enc_frame_scanned. Qed.
 
+(* C16, whole raw streams: frames of the encoder model with independently varying rate / depth / channels / length /
+   number, sync-free bytes before, between and after them: FlacStreamReader's loop (the scanning model) returns every
+   frame with its own parameters and samples, in order, and then reports the end of the source *)
+Theorem C16_encoder_stream_read_back : forall o L items trailer bytes fuel,
+  subset_stream o L items trailer = Some bytes -> Forall item_ok items -> syncless trailer = true ->
+  (length items < fuel)%nat ->
+  exists out, stream_read_all fuel bytes [] = (out, EndErr EEof) /\ Forall2 item_hdr_ok items out.
+Proof. exact subset_stream_read_back. Qed.
+
 (* C17: every well-formed subframe expands to exactly block-size samples *)
 Theorem C17_subframe_expands_to_block_size : forall bs bps sf,
   wf_subframe bs bps sf = true -> length (sem_subframe bs sf) = N.to_nat bs.
@@ -307,6 +316,37 @@ Example ex_encoder_scanned :
 Proof.
   split. { unfold block_shape, ex_block. cbn [length]. repeat split; try lia. exists 6. repeat split; try lia. repeat constructor. }
   split; [reflexivity|]. split; [reflexivity|]. split; [reflexivity|]. vm_compute. eexists. split; reflexivity.
+Qed.
+
+Definition ex_items : list sitem :=
+  [ {| it_garbage := [1; 255; 3; 248]; it_rate := 44100; it_bps := 16; it_number := 5; it_block := ex_block |};
+    {| it_garbage := []; it_rate := 8000; it_bps := 8; it_number := 0; it_block := [[1; -2; 3; -4]%Z] |};
+    {| it_garbage := [255; 255; 0]; it_rate := 96000; it_bps := 24; it_number := 300; it_block := [[70000; -70000]%Z; [5; 6]%Z; [0; 0]%Z] |} ].
+Example ex_stream_read_back :
+  Forall item_ok ex_items /\
+  match subset_stream ex_opts None ex_items [9; 255] with
+  | Some b => snd (stream_read_all 10 b []) = EndErr EEof /\
+              map snd (fst (stream_read_all 10 b [])) = map (fun it => interleave_frame (it_block it)) ex_items /\
+              map (fun x => (h_rate (fst x), h_bps (fst x), h_number (fst x))) (fst (stream_read_all 10 b [])) =
+                [(44100, 16, 5); (8000, 8, 0); (96000, 24, 300)]
+  | None => False end.
+Proof.
+  assert (Hi : forall it n, syncless (it_garbage it) = true -> (1 <= length (it_block it) <= 8)%nat ->
+            1 <= it_bps it -> it_bps it <= 32 -> 1 <= n -> n <= 65535 ->
+            Forall (fun c => N.of_nat (length c) = n /\ forallb (fits (it_bps it)) c = true) (it_block it) ->
+            it_number it <= MAX_FRAME_NUMBER -> (exists rc, code_of_rate (it_rate it) = Some rc /\ rc <> 0) ->
+            code_of_bps (it_bps it) <> 0 -> item_ok it).
+  { intros it n A B C D E F G H I J. split; [exact A|]. split; [|split; [exact H|split; [exact I|exact J]]].
+    split; [exact B|]. split; [exact C|]. split; [exact D|]. exists n. auto. }
+  split.
+  - unfold ex_items, ex_block. constructor; [|constructor; [|constructor; [|constructor]]].
+    + apply (Hi _ 6); [reflexivity | cbn; lia | cbn; lia | cbn; lia | lia | lia | repeat constructor | vm_compute; discriminate
+      | exists 9; split; [reflexivity|discriminate] | vm_compute; discriminate].
+    + apply (Hi _ 4); [reflexivity | cbn; lia | cbn; lia | cbn; lia | lia | lia | repeat constructor | vm_compute; discriminate
+      | exists 4; split; [reflexivity|discriminate] | vm_compute; discriminate].
+    + apply (Hi _ 2); [reflexivity | cbn; lia | cbn; lia | cbn; lia | lia | lia | repeat constructor | vm_compute; discriminate
+      | exists 11; split; [reflexivity|discriminate] | vm_compute; discriminate].
+  - vm_compute. repeat split; reflexivity.
 Qed.
 
 Example ex_encoder_file :
